@@ -142,7 +142,7 @@ pub fn run_c12(out: &mut Out, _rng: &mut Rng, tier: Tier) -> String {
         }
     }
     huge_decisions(out);
-    for &(nr, nc) in &LARGE[..3] {
+    for &(nr, nc) in LARGE[..3].iter().chain(VERY_LARGE.iter()) {
         for ao in ORDERS {
             for bo in ORDERS {
                 out.case(&format!("ew-large a=b={nr}x{nc} orders={}{}", ord_ch(ao), ord_ch(bo)));
